@@ -698,6 +698,8 @@ pub struct State {
     /// the harness's own verdict on those two terminal states
     cold_legal: bool,
     prev_legal: bool,
+    /// basis sequence of the last cold solve (hook H10) and how the solve ended
+    trace: Option<(Vec<selen::verif_hooks::LpTraceEvent>, String)>,
 }
 
 thread_local! {
@@ -778,7 +780,10 @@ fn run(path: &str, raw: &Raw, warm: Option<&LpSolution>) -> Outcome {
     let p = raw.to_problem();
     let cfg = raw.config();
     let r = guarded(|| match path {
-        "cold" => lpsolver::solve_with_config(&p, &cfg),
+        "cold" => {
+            selen::verif_hooks::lp_trace_start();
+            lpsolver::solve_with_config(&p, &cfg)
+        }
         _ => lpsolver::solve_warmstart(&p, warm.unwrap(), &cfg),
     });
     match r {
@@ -1120,7 +1125,148 @@ pub fn do_sol(out: &mut Out, st: &mut State, path: &str) {
     }
     if cold {
         st.cold_legal = res.split_whitespace().nth(1) == Some("legal");
+        let events = selen::verif_hooks::lp_trace_take();
+        st.trace = match &oc {
+            Outcome::Panic => None,
+            _ => Some((events, st_name.clone())),
+        };
         st.cold = Some(oc);
+    }
+}
+
+/// the auxiliary problem of `phase_one` as the code builds it (minimisation form: cost 1 on the
+/// artificial columns)
+fn phase1_form(f: &StdForm) -> StdForm {
+    let (m, n) = (f.rows, f.cols);
+    let mut a = vec![vec![Q::zero(); n + m]; m];
+    let mut bb = f.b.clone();
+    for i in 0..m {
+        let flip = f.b[i].lt(Q::zero());
+        for j in 0..n {
+            a[i][j] = if flip { f.a[i][j].neg() } else { f.a[i][j] };
+        }
+        if flip {
+            bb[i] = bb[i].neg();
+        }
+        a[i][n + i] = Q::int(1);
+    }
+    let mut c = vec![Q::zero(); n];
+    c.extend(vec![Q::int(1); m]);
+    StdForm { rows: m, cols: n + m, a, b: bb, c }
+}
+
+fn same(v: f64, q: Q) -> bool {
+    match BR::from_f64(v) {
+        Some(b) => b.cmp(&BR::from_q(q)) == Ordering::Equal,
+        None => false,
+    }
+}
+
+/// were all the floats the solver took its decisions on computed without rounding?  (every
+/// recorded basic solution, reduced cost, direction and Phase-I objective equals the exact value
+/// derived from the recorded basis)
+fn trace_exact(e: &Exact, events: &[selen::verif_hooks::LpTraceEvent]) -> Result<(), &'static str> {
+    guarded(|| {
+        let f = primal_form(e);
+        let f1 = phase1_form(&f);
+        for ev in events {
+            let g = if ev.phase == 1 || ev.phase == 3 { &f1 } else { &f };
+            let m = g.rows;
+            if ev.basic.len() != m || ev.basic.iter().chain(ev.nonbasic.iter()).any(|&j| j >= g.cols) {
+                return Err("shape");
+            }
+            let bmat: Vec<Vec<Q>> = (0..m).map(|i| ev.basic.iter().map(|&j| g.a[i][j]).collect()).collect();
+            if !ev.x_basic.is_empty() || ev.objective.is_some() {
+                let xb = match solve_exact(bmat.clone(), g.b.clone()) {
+                    Some(x) => x,
+                    None => return Err("singular"),
+                };
+                if !ev.x_basic.is_empty() && (ev.x_basic.len() != m || (0..m).any(|k| !same(ev.x_basic[k], xb[k]))) {
+                    return Err("x");
+                }
+                if let Some(o) = ev.objective {
+                    let mut s = Q::zero();
+                    for (k, &j) in ev.basic.iter().enumerate() {
+                        s = s.add(g.c[j].mul(xb[k]));
+                    }
+                    if !same(o, s) {
+                        return Err("objective");
+                    }
+                }
+            }
+            if !ev.reduced.is_empty() {
+                let bt: Vec<Vec<Q>> = ev.basic.iter().map(|&j| (0..m).map(|i| g.a[i][j]).collect()).collect();
+                let cb: Vec<Q> = ev.basic.iter().map(|&j| g.c[j]).collect();
+                let y = match solve_exact(bt, cb) {
+                    Some(y) => y,
+                    None => return Err("singular"),
+                };
+                if ev.reduced.len() != ev.nonbasic.len() {
+                    return Err("shape");
+                }
+                for (k, &j) in ev.nonbasic.iter().enumerate() {
+                    let mut r = g.c[j];
+                    for i in 0..m {
+                        r = r.sub(y[i].mul(g.a[i][j]));
+                    }
+                    if !same(ev.reduced[k], r) {
+                        return Err("reduced");
+                    }
+                }
+            }
+            if let Some(en) = ev.entering {
+                if en >= g.cols {
+                    return Err("shape");
+                }
+                let col: Vec<Q> = (0..m).map(|i| g.a[i][en]).collect();
+                let d = match solve_exact(bmat, col) {
+                    Some(d) => d,
+                    None => return Err("singular"),
+                };
+                if ev.direction.len() != m || (0..m).any(|k| !same(ev.direction[k], d[k])) {
+                    return Err("direction");
+                }
+            }
+        }
+        Ok(())
+    })
+    .unwrap_or(Err("overflow"))
+}
+
+/// `lp.trace`: the basis sequence of the last cold solve against the model's (`Model/Simplex.lean`),
+/// on runs in which no float operation feeding a decision rounded
+pub fn do_trace(out: &mut Out, st: &mut State) {
+    let (events, end) = match st.trace.take() {
+        Some(t) => t,
+        None => return,
+    };
+    let (e, raw) = match (&st.exact, &st.raw) {
+        (Some(e), Some(r)) => (e, r),
+        _ => return,
+    };
+    if events.is_empty() {
+        return;
+    }
+    let maxit = raw.config().max_iterations;
+    let shown: Vec<String> = events
+        .iter()
+        .filter(|ev| ev.phase != 3)
+        .map(|ev| format!("{}:{}", ev.phase, ev.basic.iter().map(|i| i.to_string()).collect::<Vec<_>>().join(",")))
+        .collect();
+    let res = format!("{} => {}", shown.join(" "), end);
+    out.stat(&format!("trace:len={}", shown.len().min(12)));
+    if events.iter().any(|ev| ev.phase == 1) {
+        out.stat("trace:phase1");
+    }
+    let verdict = trace_exact(e, &events);
+    if verdict.is_ok() {
+        out.stat("trace:exact");
+        out.emit(format!("lp.trace maxit={maxit}"), res);
+    } else {
+        // rounding occurred somewhere: the model (exact arithmetic) need not follow the same path
+        out.stat("trace:inexact-skipped");
+        out.stat(&format!("trace:inexact:{}", verdict.unwrap_err()));
+        out.emit(format!("# lp.trace maxit={maxit} (inexact run, not compared)"), res);
     }
 }
 
@@ -1453,6 +1599,7 @@ fn one_case(out: &mut Out, st: &mut State, id: &str, e: &Exact, tols: (f64, f64)
     out.case(id);
     do_prob(out, st, raw_of(e, tols), true);
     do_sol(out, st, "cold");
+    do_trace(out, st);
     do_sol(out, st, "warm-self");
     if let Some(rng) = rng {
         if rng.chance(1, 2) {
@@ -1506,6 +1653,7 @@ fn one_case(out: &mut Out, st: &mut State, id: &str, e: &Exact, tols: (f64, f64)
             out.stat("warm-prev-cases");
             do_prob(out, st, raw_of(&e2, tols), false);
             do_sol(out, st, "cold");
+            do_trace(out, st);
             do_sol(out, st, "warm-prev");
         }
     }
@@ -1645,6 +1793,13 @@ pub fn replay_line(out: &mut Out, line: &str) {
                     do_prob(out, &mut st, raw, first);
                 } else {
                     out.emit(line, "unparsed");
+                }
+            }
+            Some("lp.trace") => {
+                let before = out.ops.len();
+                do_trace(out, &mut st);
+                if out.ops.len() == before {
+                    out.emit(line, "no-trace");
                 }
             }
             Some("lp.sol") if ws.get(1).copied() == Some("synth") => {
